@@ -42,7 +42,7 @@ pub fn gen_and_run<G: AffineRepr>(curve: &str, ci: u64, modulus: &str, seed: u64
         let bad_pos = if k > 0 { rng.gen_range(0..k) } else { 0 };
         let mut i = 0;
         while i < k {
-            let sh = Shape { commits: if kind == 7 { 1 + rng.gen_range(0..2) } else { rng.gen_range(0..3) }, ops1: rng.gen_range(0..4), closures: if rng.gen_range(0..3) == 0 { 1 } else { 0 }, ops2: rng.gen_range(1..4), allow_missing: false };
+            let sh = Shape { commits: if kind == 7 { 1 + rng.gen_range(0..2) } else { rng.gen_range(0..3) }, ops1: rng.gen_range(0..4), closures: if rng.gen_range(0..3) == 0 { 1 } else { 0 }, ops2: rng.gen_range(1..4), allow_missing: false, sure: false };
             let g = gen_program::<F<G>>(&mut rng, &sh);
             let mut c = R1csCase::plain(format!("b_{}_{}_{}", ci, b, i), g.prog.clone(), cap, cap, rng.gen());
             c.label = BATCH_LABELS[i];
@@ -173,6 +173,58 @@ pub fn gen_and_run<G: AffineRepr>(curve: &str, ci: u64, modulus: &str, seed: u64
         }
         let summary = format!("{} {} tag=batch kind={} k={} prover=0 verdict={} singles={:?} basis={},0\n", id, curve, kind, cases.len(), vcode, singles, cap);
         outs.push(BatchOut { coq, obs, summary, id });
+    }
+    // pair sweep (the real code only): K copies of one small proof; for every pair of positions (i, j) the final scalar a is
+    // shifted by +d at i and -d at j.  Each such member fails alone; the batch must fail for EVERY pair (it would pass
+    // exactly when the two positions were given equal weights)
+    {
+        use crate::run::{proof_from_parts, proof_parts, run_prover};
+        let kk: usize = if tier == "thorough" { 40 } else { 20 };
+        let v = F::<G>::rand(&mut rng);
+        let c1 = F::<G>::rand(&mut rng);
+        let prog: Vec<COp<F<G>>> = vec![COp::Commit(v, F::<G>::rand(&mut rng)), COp::Constrain(vec![(V::Committed(0), Sx::C(c1)), (V::One, Sx::C(-(c1 * v)))])];
+        let bp1 = BulletproofGens::<G>::new(1, 1);
+        let pr = run_prover::<G>(b"verif-batch-0", &prog, &vec![], &pc, &bp1, rng.gen(), &[]);
+        let mut accepted: Vec<(usize, usize)> = vec![];
+        let mut tried = 0;
+        let mut panics = 0;
+        if let Ok(Ok(proof)) = &pr.result {
+            let d = F::<G>::rand(&mut rng);
+            let mut plus = proof_parts(proof); plus.a += d;
+            let mut minus = proof_parts(proof); minus.a -= d;
+            let (pplus, pminus) = (proof_from_parts(&plus).unwrap(), proof_from_parts(&minus).unwrap());
+            for i in 0..kk {
+                for j in (i + 1)..kk {
+                    tried += 1;
+                    let r = catch_unwind(AssertUnwindSafe(|| {
+                        let mut ts: Vec<Transcript> = (0..kk).map(|_| Transcript::new(b"verif-batch-0")).collect();
+                        let mut insts = vec![];
+                        for (p, t) in ts.iter_mut().enumerate() {
+                            let mut vf = Verifier::new(t);
+                            let l1: EvLog = Default::default();
+                            let l2: EvLog = Default::default();
+                            for op in &prog {
+                                match op {
+                                    COp::Commit(..) => { vf.commit(pr.commitments[0]); }
+                                    _ => { apply_cop(&mut vf, op, &l1, &l2); }
+                                }
+                            }
+                            insts.push((vf, if p == i { &pplus } else if p == j { &pminus } else { proof }));
+                        }
+                        let mut brng = ChaChaRng::seed_from_u64(seed ^ ((i * 64 + j) as u64));
+                        batch_verify(&mut brng, insts, &pc, &bp1)
+                    }));
+                    match r { Ok(Ok(())) => accepted.push((i, j)), Ok(Err(_)) => {}, Err(_) => panics += 1 }
+                }
+            }
+        }
+        let id = format!("bsweep_{}", ci);
+        outs.push(BatchOut {
+            coq: String::new(),
+            obs: format!("{} 15 {}\n{} 97 accepted-pairs {:?}\n", id, accepted.len(), id, &accepted[..accepted.len().min(12)]),
+            summary: format!("{} {} nomodel=1 tag=batch-sweep kind=sweep k={} pairs={} accepted={} panics={} first={} prover=0 verdict={} basis=1,0\n", id, curve, kk, tried, accepted.len(), panics, accepted.first().map(|p| format!("({},{})", p.0, p.1)).unwrap_or("-".into()), if accepted.is_empty() { 1 } else { 0 }),
+            id,
+        });
     }
     outs
 }
